@@ -504,9 +504,15 @@ class TermRule(BaseRule):
         f0 = node.func
         if isinstance(f0, ast.Name) and it.self_cls and not getattr(node, "_sa_alias_call", False):
             v0 = st.env.get(it.var(f0.id))
-            if v0 is not None and v0.kind == "unk" and v0.sym and v0.sym.startswith("self.") and v0.sym[5:].isidentifier() and it.m.find_method(it.self_cls, v0.sym[5:]) is not None:
-                # m = self.method ... m(x)  is  self.method(x): evaluated as that call (once: the synthesized node is marked)
-                fake = ast.Call(func=ast.Attribute(value=ast.Name(id="self", ctx=ast.Load()), attr=v0.sym[5:], ctx=ast.Load()), args=node.args, keywords=node.keywords)
+            parts0 = v0.sym.split(".") if (v0 is not None and v0.kind == "unk" and v0.sym) else []
+            if len(parts0) >= 2 and parts0[0] == "self" and all(p_.isidentifier() for p_ in parts0) \
+                    and (len(parts0) > 2 or it.m.find_method(it.self_cls, parts0[1]) is not None):
+                # m = self.method ... m(x)  is  self.method(x) (likewise r = self._fp._safe_read ... r(n)): evaluated as that call
+                # (once: the synthesized node is marked)
+                fn0 = ast.Name(id="self", ctx=ast.Load())
+                for p_ in parts0[1:]:
+                    fn0 = ast.Attribute(value=fn0, attr=p_, ctx=ast.Load())
+                fake = ast.Call(func=fn0, args=node.args, keywords=node.keywords)
                 ast.copy_location(fake, node)
                 ast.fix_missing_locations(fake)
                 fake._sa_alias_call = True
